@@ -1,6 +1,7 @@
 (** C03 — Requests always carry exactly the current interest set of their type.
     Statements only; proofs are [exact] of lemmas in Proofs/SysProofs.v. *)
 From Xds Require Import Model.Base Model.Fqdn Model.Proto Model.Decode Model.Pick Model.Route Model.Mw Model.Sys Proofs.SysProofs.
+From Xds Require Import Model.DecodeCheck Model.SysCheck Proofs.WireProofs.
 Open Scope string_scope.
 
 (** Every request a subscription change emits is of that type, is sent on the live stream, and lists exactly
@@ -39,3 +40,22 @@ Print Assumptions C03_reconnect_keeps_interest.
 
 (** The replies to responses list the interest set too (see C02_ack / C02_nack: [q_names := ws] with
     [ws] the interest set of the type), and so do the re-requests after a reconnect (C04_resubscribe). *)
+
+(** QUIESCENCE OVER HISTORIES.  [runw] runs a history and logs every request with the stream it was sent on.  After ANY
+    history - lookups, bursts, responses, evictions, resolutions, reconnects, Send failures - if the client is open and
+    its sender has a stream, the LAST request of every subscribed type on the live stream lists exactly the interest set
+    of that type: the control plane's view of the subscriptions equals the client's. *)
+Theorem C03_quiescent_wire : forall c o h,
+  let '(s, sent, _) := runw c o init_state h [] [] in
+  s_closed s = false -> s_sender_ok s = true ->
+  forall t ws, tget t (s_watched s) = Some ws ->
+  exists q, last_on t (s_stream s) sent = Some q /\ q_names q = ws /\ q_type q = t.
+Proof. exact quiescent_wire. Qed.
+Print Assumptions C03_quiescent_wire.
+
+(** the logged run is the run of Model/Sys.v *)
+Theorem C03_logged_run : forall c o h s sent rcvd,
+  fst (fst (runw c o s h sent rcvd)) = fst (run c o s h) /\
+  snd (fst (runw c o s h sent rcvd)) = (sent ++ flat_map o_reqs (snd (run c o s h)))%list.
+Proof. exact runw_is_run. Qed.
+Print Assumptions C03_logged_run.
